@@ -641,14 +641,14 @@ func (p *Preemptor) TryPreemption() (*AllocationResult, bool) {
 			continue
 		}
 		// stop collecting the victims once ask resource requirement met
-		if p.ask.GetAllocatedResource().StrictlyGreaterThanOnlyExisting(victimsTotalResource) {
+		if p.victimsShortfall(nodeID, fitIn, victimsTotalResource) {
 			finalVictims = append(finalVictims, victim)
 		}
 		// add the victim resources to the total
 		victimsTotalResource.AddTo(victim.GetAllocatedResource())
 	}
 
-	if p.ask.GetAllocatedResource().StrictlyGreaterThanOnlyExisting(victimsTotalResource) {
+	if p.victimsShortfall(nodeID, fitIn, victimsTotalResource) {
 		// there is shortfall, so preemption doesn't help
 		p.ask.LogAllocationFailure(common.PreemptionShortfall, true)
 		return nil, false
@@ -715,6 +715,17 @@ func (p *Preemptor) TryPreemption() (*AllocationResult, bool) {
 		zap.Int("collected victim count", len(victims)),
 		zap.Int("preempted victim count", len(finalVictims)))
 	return newReservedAllocationResult(nodeID, p.ask), true
+}
+
+// victimsShortfall returns true as long as the victims collected so far do not meet the ask resource requirement.
+// The victims covering one of the resource types of the ask is only enough if the ask also fits on the chosen node:
+// if the node does not have the space for the ask yet all victims are located on that node, and the ask must fit in
+// the space available on the node plus the victims.
+func (p *Preemptor) victimsShortfall(nodeID string, fitIn bool, victimsTotal *resources.Resource) bool {
+	if p.ask.GetAllocatedResource().StrictlyGreaterThanOnlyExisting(victimsTotal) {
+		return true
+	}
+	return !fitIn && !resources.Add(p.nodeAvailableMap[nodeID], victimsTotal).FitIn(p.ask.GetAllocatedResource())
 }
 
 // Duplicate creates a copy of this snapshot into the given map by queue path
